@@ -251,6 +251,21 @@ func (fr *Frame) funcValueKey(v ssa.Value) string {
 				return k
 			}
 		}
+	case *ssa.Call:
+		// a helper of this module that selects and returns a function value (e.g. one of two
+		// configured callbacks): the value is what the helper returns
+		if callee := x.Call.StaticCallee(); callee != nil && callee.Pkg != nil && strings.HasPrefix(callee.Pkg.Pkg.Path(), modPath) && callee.Signature.Results().Len() == 1 {
+			sub := &Frame{fn: callee, vc: fr.vc}
+			for _, b := range callee.Blocks {
+				for _, in := range b.Instrs {
+					if r, ok := in.(*ssa.Return); ok && len(r.Results) == 1 {
+						if k := sub.funcValueKey(r.Results[0]); k != "" {
+							return k
+						}
+					}
+				}
+			}
+		}
 	}
 	return ""
 }
